@@ -90,9 +90,10 @@ func (c *chatHandler) handleLegacyCommand(packet *chat.LegacyChat) error {
 			return nil
 		}
 		if !hasRun {
+			// Forward the command as (possibly) rewritten by the event.
 			return (&chat.Builder{
 				Protocol: c.player.Protocol(),
-				Message:  packet.Message,
+				Message:  "/" + commandToRun,
 				Sender:   c.player.ID(),
 			}).ToServer()
 		}
